@@ -12,6 +12,7 @@ PROPS = {
  ),
 
  "C01": dict(
+  obligations=["ObSchema", "ObOrder"],
   families=[dict(name="suite2020", model="val", quick=0, thorough=0),
             dict(name="val", model="val", quick=1200, thorough=30000),
             dict(name="uneval", model="val", quick=400, thorough=10000),
@@ -24,6 +25,7 @@ PROPS = {
                "multipleOf operands outside the property's domain are not generated (big instance numbers are dropped when the document uses multipleOf)"],
  ),
  "C02": dict(
+  obligations=["ObSchema", "ObOrder"],
   families=[dict(name="suite7", model="val", quick=0, thorough=0),
             dict(name="d7", model="val", quick=1200, thorough=30000),
             dict(name="ref7", model="val", quick=900, thorough=20000)],
@@ -40,6 +42,7 @@ PROPS = {
   assumptions=["universes are coherent: the loader returns a fresh copy of the same document for a URI"],
  ),
  "C07": dict(
+  obligations=["ObSchema", "ObOrder"],
   families=[dict(name="uneval", model="val", quick=1000, thorough=40000),
             dict(name="unevalt", model="val", quick=1500, thorough=40000),
             dict(name="val", model="val", quick=300, thorough=10000)],
